@@ -19,9 +19,11 @@ Inductive dop :=
 | DWrite (k : nat)         (* the transport accepts k more bytes of the message in flight *)
 | DDrop                    (* the listen future is dropped *)
 | DClose.                  (* graceful_shutdown comes to its end: the message in flight, then the queued one, are written out.
-                              (The call is bounded as a whole, GRACEFUL_SHUTDOWN_TIMEOUT, for a client that takes nothing at all: then
-                              it fails, the connection is dropped as a failed one and what was left is lost with it; that is not a
-                              close "in an orderly way", which is all DClose stands for - see h1_close in Model/ShutdownM.v, C19) *)
+                              (The codec itself puts no limit on how long the client may take, HTTP1_OWN_CLOSE_WAITS_FOR_THE_CLIENT. Only
+                              a session that closes because a shutdown was submitted is bounded, by its owner (SESSION_CLOSE_TIMEOUT):
+                              for a client that takes nothing the close then fails, the connection is dropped as a failed one and what
+                              was left is lost with it; that is not a close "in an orderly way", which is all DClose stands for - see
+                              h1_close in Model/ShutdownM.v, C19) *)
 
 Definition dstep (keep : bool) (s : dl) (o : dop) : dl :=
   match o with
